@@ -216,12 +216,9 @@ def spec_family(quick: bool):
     # Finite throughputs on all three memories keep a two-argument Max in the latency objective.
     if quick:
         simple(4, 4, False)
-        simple(4, 4, True)
-        simple(6, 4, False, gb=64, thr=2)
         simple(5, 4, True, gb=64, thr=2)
         pe(4, 4, False, gb=256, rf=64)
         pe(12, 12, False, thr=(1, 1, 1))
-        pe(12, 12, True, thr=(1, 1, 1))
         pe(10, 10, True, thr=(1, 1, 1))
         return S
     for imp in (False, True):
